@@ -243,3 +243,222 @@ Proof.
   unfold fe_ok. apply andb_true_iff. split; apply Qle_bool_iff; apply Hfe;
     first [apply Qle_refl | discriminate].
 Qed.
+
+(* ------------------------------------------------ front end, every angle *)
+
+Lemma front_inv : forall angle tol rest thr,
+  front angle tol = Some (rest, thr) ->
+  exists a1 r0, py_mod angle (2 * PI_D) = Some a1 /\ rne53 (a1 / PI_D) = Some r0 /\
+    rest = (if Qle_bool 2 r0 then r0 - 2 else r0) /\ rne53 (tol / PI_D) = Some thr.
+Proof.
+  intros angle tol rest thr H. unfold front, front_gen in H.
+  destruct (py_mod angle (2 * PI_D)) as [a1|] eqn:M; [|discriminate].
+  destruct (rne53 (a1 / PI_D)) as [r0|] eqn:R; [|discriminate].
+  destruct (rne53 (tol / PI_D)) as [t|] eqn:T; [|discriminate].
+  injection H as H1' H2'. exists a1, r0. split; [reflexivity|].
+  split; [exact R|]. split; [symmetry; exact H1' | congruence].
+Qed.
+
+Lemma inj_pred : forall c : Z, inject_Z (c - 1) == inject_Z c - 1.
+Proof. intro c. unfold Qeq, Qminus, Qplus, Qopp, inject_Z. simpl. lia. Qed.
+
+(* CPython's float % for a positive modulus: the exact remainder
+   x = a - m * floor(a / m) in [0, m), rounded once when a is negative *)
+Lemma py_mod_general : forall a m a1,
+  0 < m -> py_mod a m = Some a1 ->
+  let x := a - m * inject_Z (Qfloor (a / m)) in
+  0 <= x /\ x < m /\ Qabs (a1 - x) <= x * pow2 (-53).
+Proof.
+  intros a m a1 Hm H. cbv zeta.
+  pose proof (Qfloor_le (a / m)) as F1. pose proof (Qlt_floor (a / m)) as F2.
+  rewrite inject_Z_plus in F2. change (inject_Z 1) with 1 in F2.
+  set (f := Qfloor (a / m)) in *.
+  assert (Ey : a / m * m == a). { field. intro E. rewrite E in Hm. discriminate Hm. }
+  set (y := a / m) in *.
+  assert (Hx0 : 0 <= a - m * inject_Z f) by nra.
+  assert (Hx1 : a - m * inject_Z f < m) by nra.
+  pose proof (pow2_pos (-53)) as Hh.
+  split; [exact Hx0|]. split; [exact Hx1|].
+  unfold py_mod, c_fmod in H. fold y in H. unfold qtrunc in H.
+  destruct (Qle_bool 0 y) eqn:S.
+  - (* a >= 0: trunc = floor, no rounding *)
+    fold f in H. set (r := a - m * inject_Z f) in *.
+    destruct (Qnum r) as [|n|n] eqn:En.
+    + injection H as H. subst a1. apply Qnum_zero in En.
+      apply Qabs_Qle_condition. split; nra.
+    + injection H as H. subst a1. apply Qabs_Qle_condition. split; nra.
+    + exfalso. assert (Hr : r < 0). { destruct r as [rn rd]. cbn in En. subst rn. reflexivity. } lra.
+  - (* a < 0: trunc = ceiling *)
+    assert (Sy : y < 0). { apply Qnot_le_lt. intro Hc. apply Qle_bool_iff in Hc. congruence. }
+    pose proof (Qle_ceiling y) as C1. pose proof (Qceiling_lt y) as C2. rewrite inj_pred in C2.
+    set (c := Qceiling y) in *. set (r := a - m * inject_Z c) in *.
+    assert (Hr0 : r <= 0) by (unfold r; nra).
+    destruct (Qnum r) as [|n|n] eqn:En.
+    + (* a is a multiple of m *)
+      injection H as H. subst a1. apply Qnum_zero in En.
+      assert (Eyc : y == inject_Z c) by (unfold r in En; nra).
+      assert (Efc : f = c).
+      { assert (G1 : inject_Z f < inject_Z (c + 1)) by (rewrite inject_Z_plus; change (inject_Z 1) with 1; lra).
+        assert (G2 : inject_Z (c - 1) < inject_Z f).
+        { rewrite inj_pred. lra. }
+        apply inj_lt in G1, G2. lia. }
+      rewrite Efc. fold r. apply Qabs_Qle_condition. split; nra.
+    + exfalso. assert (Hr : 0 < r). { destruct r as [rn rd]. cbn in En. subst rn. reflexivity. } lra.
+    + assert (Hr : r < 0). { destruct r as [rn rd]. cbn in En. subst rn. reflexivity. }
+      assert (Yc : y < inject_Z c) by (unfold r in Hr; nra).
+      assert (Efc : f = (c - 1)%Z).
+      { assert (G1 : inject_Z f < inject_Z c) by lra.
+        assert (G2 : inject_Z (c - 1) < inject_Z (f + 1)) by (rewrite inj_pred, (inject_Z_plus f); change (inject_Z 1) with 1; lra).
+        apply inj_lt in G1, G2. lia. }
+      pose proof (rne53_spec _ _ H) as Sp.
+      assert (Ex : r + m == a - m * inject_Z f).
+      { rewrite Efc, inj_pred. unfold r. ring. }
+      assert (Hp : 0 <= r + m) by lra. rewrite (Qabs_pos (r + m)) in Sp by exact Hp.
+      apply Qabs_Qle_condition in Sp. apply Qabs_Qle_condition. destruct Sp as [S1 S2].
+      set (h := pow2 (-53)) in *. set (x := a - m * inject_Z f) in *. set (w := r + m) in *.
+      split; nra.
+Qed.
+
+Lemma abs_inject : forall t : Z, - inject_Z (Z.abs t) <= inject_Z t /\ inject_Z t <= inject_Z (Z.abs t) /\ 0 <= inject_Z (Z.abs t).
+Proof.
+  intro t. assert (H0 : 0 <= inject_Z (Z.abs t)). { change 0 with (inject_Z 0). apply le_inj. lia. }
+  assert (H1 : inject_Z t <= inject_Z (Z.abs t)) by (apply le_inj; lia).
+  assert (H2 : inject_Z (- Z.abs t) <= inject_Z t) by (apply le_inj; lia).
+  rewrite inject_Z_opp in H2. repeat split; assumption.
+Qed.
+
+(* For EVERY rational angle (in particular every finite double, of either sign and
+   any size for which the front end is defined) and 2^-240 <= tol <= 1: the front
+   end's rest lies in [0, 2), thr >= 2^-248, and rest half turns are within
+   allow(angle) radians (threshold excess included) of angle - 2 k pi, where
+   k = floor(angle / (2*np.pi)), plus one exactly when `if rest >= 2` fired. *)
+Theorem front_general : forall angle tol rest thr,
+  pow2 (-240) <= tol -> tol <= 1 ->
+  front angle tol = Some (rest, thr) ->
+  0 <= rest /\ rest < 2 /\ pow2 (8 - D_FIELD) <= thr /\
+  exists k, (k = turns angle \/ k = turns angle + 1)%Z /\
+    forall p, PI_LO <= p -> p <= PI_HI -> fe_at angle tol rest thr k p <= allow angle.
+Proof.
+  intros angle tol rest thr Ht0 Ht1 H.
+  destruct (front_inv angle tol rest thr H) as [a1 [r0 [M [R [Erest T]]]]].
+  assert (HPD : 0 < PI_D) by reflexivity.
+  assert (Hm : 0 < 2 * PI_D) by reflexivity.
+  assert (Htol : 0 < tol). { pose proof (pow2_pos (-240)). lra. }
+  destruct (py_mod_general _ _ _ Hm M) as [Hx0 [Hx1 Ha1]]. fold (turns angle) in Hx0, Hx1, Ha1.
+  set (t := turns angle) in *. set (x := angle - 2 * PI_D * inject_Z t) in *.
+  set (h := pow2 (-53)) in *. assert (Hh : 0 < h) by (unfold h; apply pow2_pos).
+  assert (Hh1 : h <= 1 # 1000) by (vm_compute; discriminate).
+  pose proof (rne53_spec _ _ R) as Sr. pose proof (rne53_spec _ _ T) as St. fold h in Sr, St.
+  set (X := a1 / PI_D) in *. set (TT := tol / PI_D) in *. set (X0 := x / PI_D).
+  assert (EX : X * PI_D == a1) by (unfold X; field; discriminate).
+  assert (EX0 : X0 * PI_D == x) by (unfold X0; field; discriminate).
+  assert (ET : TT * PI_D == tol) by (unfold TT; field; discriminate).
+  apply Qabs_Qle_condition in Ha1. destruct Ha1 as [A1 A2].
+  assert (HX00 : 0 <= X0) by nra. assert (HX02 : X0 < 2) by nra.
+  assert (HXX : X0 * (1 - h) <= X /\ X <= X0 * (1 + h)).
+  { split; nra. }
+  destruct HXX as [HXa HXb].
+  assert (HX0 : 0 <= X) by nra. assert (HT0 : 0 < TT) by nra.
+  rewrite (Qabs_pos X) in Sr by exact HX0. rewrite (Qabs_pos TT) in St by lra.
+  pose proof Sr as Sr'. apply Qabs_Qle_condition in Sr'. destruct Sr' as [Sr1 Sr2].
+  pose proof St as St'. apply Qabs_Qle_condition in St'. destruct St' as [St1 St2].
+  set (g := 2 * h + h * h).
+  assert (Hg : 0 < g) by (unfold g; nra). assert (Hgh : h <= g) by (unfold g; nra).
+  assert (Sg : Qabs (r0 - X0) <= X0 * g).
+  { apply Qabs_Qle_condition. unfold g.
+    assert (U : r0 <= X0 * ((1 + h) * (1 + h))).
+    { assert (r0 <= X * (1 + h)) by nra. assert (X * (1 + h) <= X0 * (1 + h) * (1 + h)) by nra. nra. }
+    assert (L : X0 * ((1 - h) * (1 - h)) <= r0).
+    { assert (X * (1 - h) <= r0) by nra. assert (X0 * (1 - h) * (1 - h) <= X * (1 - h)) by nra. nra. }
+    assert (Q2 : 0 <= X0 * (h * h)) by nra.
+    split; nra. }
+  assert (Stg : Qabs (thr - TT) <= TT * g).
+  { apply Qabs_Qle_condition. split; nra. }
+  (* thr >= 2^-248 *)
+  assert (Hthr : pow2 (8 - D_FIELD) <= thr).
+  { assert (B1 : tol <= TT * 4). { assert (PI_D <= 4) by (vm_compute; discriminate). nra. }
+    assert (B2 : pow2 (8 - D_FIELD) * 8 <= pow2 (-240)) by (vm_compute; discriminate).
+    pose proof (pow2_pos (8 - D_FIELD)). nra. }
+  set (D := 3 # 10000000000000000).
+  assert (HD : (1 + g) * PI_HI - PI_D <= D * PI_D) by (vm_compute; discriminate).
+  assert (Hc : 2 * g * PI_HI + 2 * (PI_HI - PI_D) + D <= FE_ALLOW + pow2 (-50)) by (vm_compute; discriminate).
+  assert (HP1 : PI_D <= PI_LO) by (vm_compute; discriminate).
+  assert (HTn : 2 * (PI_HI - PI_D) <= TURN_ALLOW) by (vm_compute; discriminate).
+  destruct (abs_inject t) as [Ta1 [Ta2 Ta0]].
+  assert (Hmain : forall p, PI_LO <= p -> p <= PI_HI ->
+            Qabs (r0 * p - (angle - 2 * inject_Z t * p)) + (if Qle_bool (thr * p) tol then 0 else thr * p - tol) <= allow angle).
+  { intros p Hp1 Hp2.
+    pose proof (fe_arith g PI_D PI_HI p X0 r0 tol TT thr D (FE_ALLOW + pow2 (-50))
+                  Hg HPD ltac:(lra) Hp2 HX00 HX02 Sg Htol Ht1 ET Stg ltac:(discriminate) HD Hc) as Hb.
+    set (te := if Qle_bool (thr * p) tol then 0 else thr * p - tol) in *.
+    assert (E : r0 * p - (angle - 2 * inject_Z t * p) == (r0 * p - X0 * PI_D) + 2 * inject_Z t * (p - PI_D)).
+    { rewrite EX0. unfold x. ring. }
+    assert (Hte : 0 <= te).
+    { unfold te. destruct (Qle_bool (thr * p) tol) eqn:Q; [lra|].
+      assert (tol < thr * p). { apply Qnot_le_lt. intro Hcq. apply Qle_bool_iff in Hcq. congruence. } lra. }
+    unfold allow. fold t. set (ta := inject_Z (Z.abs t)) in *. set (tq := inject_Z t) in *.
+    set (u := Qabs (r0 * p - X0 * PI_D)) in *.
+    assert (Hu : - u <= r0 * p - X0 * PI_D /\ r0 * p - X0 * PI_D <= u).
+    { apply Qabs_Qle_condition. unfold u. apply Qle_refl. }
+    destruct Hu as [Hu1 Hu2].
+    assert (Hq : Qabs (r0 * p - (angle - 2 * tq * p)) <= u + ta * TURN_ALLOW).
+    { rewrite E. apply Qabs_Qle_condition.
+      assert (W0 : 0 <= p - PI_D) by lra. assert (W1 : 2 * (p - PI_D) <= TURN_ALLOW) by lra.
+      assert (V1 : 2 * tq * (p - PI_D) <= ta * TURN_ALLOW) by nra.
+      assert (V2 : - (ta * TURN_ALLOW) <= 2 * tq * (p - PI_D)) by nra.
+      split; lra. }
+    lra. }
+  destruct (Qle_bool 2 r0) eqn:G.
+  - apply Qle_bool_iff in G. subst rest.
+    assert (Hr4 : r0 < 4). { apply Qabs_Qle_condition in Sg. assert (g <= 1 # 100) by (unfold g; nra). nra. }
+    split; [lra|]. split; [lra|]. split; [exact Hthr|].
+    exists (t + 1)%Z. split; [right; reflexivity|]. intros p Hp1 Hp2. unfold fe_at.
+    assert (E : (r0 - 2) * p - (angle - 2 * inject_Z (t + 1) * p) == r0 * p - (angle - 2 * inject_Z t * p)).
+    { rewrite inject_Z_plus. change (inject_Z 1) with 1. ring. }
+    rewrite E. apply Hmain; assumption.
+  - assert (G' : r0 < 2). { apply Qnot_le_lt. intro Hc'. apply Qle_bool_iff in Hc'. congruence. }
+    subst rest. apply Qabs_Qle_condition in Sg.
+    split; [nra|]. split; [exact G'|]. split; [exact Hthr|].
+    exists t. split; [left; reflexivity|]. intros p Hp1 Hp2. unfold fe_at. apply Hmain; assumption.
+Qed.
+
+(* radians_checked with an arbitrary allowance c at the two rational bounds of pi *)
+Theorem radians_allow : forall angle tol rest thr outs out k p c,
+  front angle tol = Some (rest, thr) -> 0 <= rest -> rest < 2 -> pow2 (8 - D_FIELD) <= thr ->
+  spec_all angle tol = Some outs -> In (Some out) outs ->
+  fe_at angle tol rest thr k PI_LO <= c -> fe_at angle tol rest thr k PI_HI <= c ->
+  PI_LO <= p -> p <= PI_HI ->
+  Qabs ((sumq out + 2 * inject_Z k) * p - angle) <= tol + c.
+Proof.
+  intros angle tol rest thr outs out k p c Hf H0 H2 HD Hs Hin Hlo Hhi Hp1 Hp2.
+  unfold spec_all in Hs. rewrite Hf in Hs. revert Hs. generalize FUEL. intros fuel Hs.
+  injection Hs as Hs. subst outs. apply in_map_iff in Hin. destruct Hin as [[raw rf] [Ho Hin]]. cbn [fst] in Ho.
+  apply expand_all_sound in Hin.
+  assert (Hend : forall q, 0 <= q -> fe_at angle tol rest thr k q <= c ->
+                 Qabs ((sumq out + 2 * inject_Z k) * q + - angle) <= tol + c).
+  { intros q Hq Hfe. destruct (fe_at_bound _ _ _ _ _ _ _ Hfe) as [fe [te [Ha [Hb [Hc Hd]]]]].
+    pose proof (radians_with_front_end D_FIELD thr rest raw rf out tol q _ fe te H0 H2 Hin Ho HD Hq Ha Hb) as H.
+    assert (E : (sumq out + 2 * inject_Z k) * q + - angle == sumq out * q - (angle - 2 * inject_Z k * q)) by ring.
+    rewrite E. apply Qabs_le_iff in H. apply Qabs_le_iff. destruct H. split; lra. }
+  assert (E : (sumq out + 2 * inject_Z k) * p - angle == (sumq out + 2 * inject_Z k) * p + - angle) by ring.
+  rewrite E. apply abs_linear_between with (p1 := PI_LO) (p2 := PI_HI); try assumption.
+  - apply Hend; [discriminate | exact Hlo].
+  - apply Hend; [discriminate | exact Hhi].
+Qed.
+
+(* the docstring's statement for every angle and 2^-240 <= tol <= 1, every p in
+   [PI_LO, PI_HI], with the explicit allowance allow(angle): no per-input
+   hypothesis *)
+Theorem radians_general : forall angle tol rest thr outs out,
+  pow2 (-240) <= tol -> tol <= 1 ->
+  front angle tol = Some (rest, thr) -> spec_all angle tol = Some outs -> In (Some out) outs ->
+  exists k, (k = turns angle \/ k = turns angle + 1)%Z /\
+    forall p, PI_LO <= p -> p <= PI_HI ->
+      Qabs ((sumq out + 2 * inject_Z k) * p - angle) <= tol + allow angle.
+Proof.
+  intros angle tol rest thr outs out Ht0 Ht1 Hf Hs Hin.
+  destruct (front_general angle tol rest thr Ht0 Ht1 Hf) as [Hr0 [Hr2 [Hthr [k [Hk Hfe]]]]].
+  exists k. split; [exact Hk|]. intros p Hp1 Hp2.
+  apply (radians_allow angle tol rest thr outs out k p (allow angle) Hf Hr0 Hr2 Hthr Hs Hin); try assumption;
+    apply Hfe; first [apply Qle_refl | discriminate].
+Qed.
